@@ -10,3 +10,15 @@ Theorem epoch0_appdata_not_delivered (W : nat) (lease : bool) (s : rstate) (w : 
 Proof.
   intro H. destruct (deliver_only_authentic W lease s w p e q H) as (_ & _ & H1 & H2 & H3 & _). auto.
 Qed.
+
+(* ... and it is refused silently: no alert, no error, no replay commit, in every state (8aa2dc9; before, a
+   fatal unexpected_message alert and an error - one unauthenticated datagram ended a handshake in progress or
+   made an established endpoint close its peer) *)
+Theorem epoch0_appdata_silent (W : nat) (lease : bool) (s : rstate) (w : wire) (p : bytes) :
+  w_epoch w = 0 -> w_clear w = CApp p -> recv W lease s w = (s, []).
+Proof.
+  intros He Hb. unfold recv, dispatch. rewrite He, Hb. cbn [N.eqb].
+  destruct (r_closed s); [reflexivity|].
+  destruct (r_epoch s <? 0) eqn:E; [lia|].
+  destruct (negb (check maxseq48 (get_win W 0 (r_wins s)) (w_seq w))); reflexivity.
+Qed.
